@@ -7,12 +7,12 @@ JSON-lines driver of engine `Argv` (core part: C22, C23, C24).
   {"op":"shlex","s":STR}                       -> {"lex": R, "raw": R, "split_cmd": R}     R = {"ok":[STR..]} | {"err":TAG}
   {"op":"render","argv":[STR..]}               -> {"cmdline": STR, "quoted": STR, "cmdline_split": R, "quoted_split": R}
   {"op":"run","exe":[STR..],"fields":[FIELD..],"values":[VALUE..],"append":[STR..]}
-       FIELD = {"name":STR,"bool":B,"multi":B,"argstr":STR|null,"position":INT|null,"sep":STR}
+       FIELD = {"name":STR,"bool":B,"multi":B,"optional":B,"argstr":STR|null,"position":INT|null,"sep":STR}
        VALUE = null | SCALAR | [SCALAR..]
        SCALAR = {"s":STR} | {"i":INT} | {"f":STR,"z":B} | {"p":STR} | {"b":B}
      -> {"positions": {"ok":[INT..]}|{"err":TAG}, "argv": R, "cmdline": {"ok":STR}|{"err":TAG}, "spec":[STR..]}
-  {"op":"runx","exe":[STR..],"fields":[FIELDX..],"values":[VALUEX..],"append":[STR..],"xenv":{KEY:STR..},"cd":STR}
-       FIELDX = FIELD + {"readonly":B,"file_union":B,"allowed":[SCALAR..]|null,
+  {"op":"runx","exe":[STR..],"fields":[FIELDX..],"values":[VALUEX..],"append":[STR..],"xenv":{KEY:STR..},"cd":STR,"class_form":B}
+       FIELDX = FIELD + {"out":B,"readonly":B,"file_union":B,"allowed":[SCALAR..]|null,
                          "formatter":{"args":[STR..],"pieces":[PIECE..]}|null,"template":{"tmpl":STR,"keep":B}|null}
        PIECE  = {"lit":STR} | {"arg":NAT} | {"field_name":NAT} | {"input":[NAT,STR]}
        VALUEX = VALUE | {"nothing":true}
@@ -73,6 +73,7 @@ def fieldOf (j : Json) : Except String Field := do
   let isBool ← (← j.getObjVal? "bool").getBool?
   let isMulti ← (← j.getObjVal? "multi").getBool?
   let sep := (← getStr j "sep").toList
+  let optional ← (← j.getObjVal? "optional").getBool?
   let position ← match ← optOf j "position" with
     | none => pure none
     | some v => do pure (some (← v.getInt?))
@@ -82,7 +83,7 @@ def fieldOf (j : Json) : Except String Field := do
       match parseArgstr (← v.getStr?).toList with
       | .ok a => pure (some a)
       | .error _ => throw "argstr-outside-modelled-fragment"
-  return { name, isBool, isMulti, argstr, position, sep }
+  return { name, isBool, isMulti, argstr, position, sep, optional }
 
 def errXTag : ErrX → String
   | .base e => errTag e
@@ -136,7 +137,8 @@ def fieldXOf (j : Json) : Except String (FieldX × Option (List FPiece)) := do
   let template ← match ← optOf j "template" with
     | none => pure none
     | some v => do pure (some (⟨(← getStr v "tmpl").toList, ← (← v.getObjVal? "keep").getBool?⟩ : TemplateX))
-  return (⟨base, { readonly, fileUnion, allowed, formatter, template }⟩, pieces)
+  let out ← (← j.getObjVal? "out").getBool?
+  return (⟨base, { readonly, fileUnion, allowed, formatter, template, out }⟩, pieces)
 
 def handle (j : Json) : Json :=
   let r : Except String Json := do
@@ -179,7 +181,8 @@ def handle (j : Json) : Json :=
         match fps.find? (fun fp => fp.1.base.name == name) with
         | some (_, some pieces) => interpFormatter pieces args
         | _ => "<no-formatter>".toList
-      let argv := runDefX F xenv cd exe (fps.map (·.1)) vs app
+      let classForm ← (← j.getObjVal? "class_form").getBool?
+      let argv := runDefForm classForm F xenv cd exe (fps.map (·.1)) vs app
       return Json.mkObj [("argv", RX SL argv), ("cmdline", RX S (argv.map cmdlineOf))]
     | _ => throw s!"bad-op {op}"
   match r with
